@@ -4,6 +4,7 @@ package c04
 import (
 	"flag"
 	"fmt"
+	"os"
 	"testing"
 
 	"verif/mc/explore"
@@ -13,6 +14,10 @@ import (
 var replayFile = flag.String("replay", "", "replay file")
 
 func TestCheck(t *testing.T) {
+	if spec := os.Getenv("VERIF_CRASH_CHILD"); spec != "" {
+		crashChild(spec, os.Getenv("VERIF_CRASH_DIR"))
+		return
+	}
 	if sc := explore.WorkerScenario(); sc != "" {
 		workerMain(t, sc)
 		return
@@ -20,7 +25,8 @@ func TestCheck(t *testing.T) {
 	c := report.Begin("C04", "model_checking")
 	c.Rule = "(a) states = (model list, segment file layout) of the real hh queue reached by BFS over queue operations, each state validated by draining a reopened copy; (c) executions = schedules of k appenders racing Close/consumer on the real queue under the controlled scheduler; distinct = states + outcome classes"
 	c.Assumptions = []string{
-		"queue files live on tmpfs (/dev/shm); fsync is a no-op there, crash behaviour is decided by the crash-image part, not here",
+		"parts (a),(c): queue files live on tmpfs (/dev/shm); fsync is a no-op there, crash behaviour is decided by part (b)",
+		"part (b) crash model: the durable state is a prefix of the file-system mutation log of one strace'd run per history (GOMAXPROCS=1), plus a write to a segment file not yet followed by fsync may be cut at any length (prefix of the new bytes over the old ones); no reordering, no lost directory entries; torn lengths by class in the quick tier, every length in the thorough tier",
 		"segment size 64 bytes stands for the 10 MB default (all size comparisons are relative to it)",
 		"scheduling points are the sync operations of services/hh and pkg/limiter; data races are outside a cooperative scheduler (see C19 auxiliary pass)",
 	}
@@ -29,6 +35,12 @@ func TestCheck(t *testing.T) {
 		rp, err := report.LoadReplay(*replayFile)
 		if err != nil {
 			t.Fatal(err)
+		}
+		if rp.Config["part"] == "b" {
+			os.Setenv("VERIF_C04_HISTORY", rp.Config["history"])
+			crashPart(c)
+			report.ExitCode = c.Finish()
+			return
 		}
 		if sc, ok := findScenario(rp.Config["scenario"]); ok {
 			out, tp := explore.Replay(rp.Tape, schedBody(t, sc))
@@ -45,11 +57,17 @@ func TestCheck(t *testing.T) {
 		}
 		return
 	}
+	if os.Getenv("VERIF_C04_ONLY") == "crash" { // development aid: part (b) alone, nothing is written to the evidence directory
+		crashPart(c)
+		report.ExitCode = c.Finish()
+		return
+	}
 	depth := c.Pick(5, 7)
 	r := explore.BFS(explore.BFSConfig{Ops: len(ops), Depth: depth, Workers: 16, OpName: func(i int) string { return ops[i].name }},
 		func(seq []int) explore.StepResult { return runSeq(ops, seq) })
 	c.AddBFS("queue-operations", r, map[string]any{"part": "a"})
 	schedPart(t, c)
+	crashPart(c)
 	report.ExitCode = c.Finish()
 }
 
